@@ -154,8 +154,12 @@ func zvC13Path(u zvC13Uni, x int) *route.Path {
 		b.ASPath = &types.ASPath{{Type: types.ASSet, ASNs: []uint32{65107, 65108}}, {Type: types.ASSequence, ASNs: []uint32{65109}}}
 		b.LargeCommunities = &types.LargeCommunities{{GlobalAdministrator: 65000, DataPart1: 1, DataPart2: 2}}
 		b.BGPPathA.MED = 10
+		// lists that are present but empty (what the decoder builds for zero-length attributes): still objects of their own
+		b.Communities = &types.Communities{}
 		if u.Source == "ibgp" {
 			b.BGPPathA.LocalPref = 100
+			b.ClusterList = &types.ClusterList{}
+			b.BGPPathA.OriginatorID = 0x0a050006
 		}
 	}
 	b.ASPathLen = b.ASPath.Length()
